@@ -6,7 +6,10 @@ Everything here is written from the format documentation; third-party *codec* li
 import bz2
 import hashlib
 import lzma
+import os
+import select
 import struct
+import time
 import zlib
 
 from .common import METHOD, METHOD_NAME
@@ -186,14 +189,15 @@ def spec_from(method: str, props: bytes) -> dict:
     if name is None:
         raise Unsupported("cannot re-encode method %s" % method)
     spec = {"id": name}
-    if name == "lzma" and len(props) == 5:
-        spec.update(lc=props[0] % 9, lp=props[0] // 9 % 5, pb=props[0] // 45, dict_size=max(struct.unpack("<I", props[1:])[0], 4096))
+    if name == "lzma" and len(props) >= 5:
+        spec.update(lc=props[0] % 9, lp=props[0] // 9 % 5, pb=props[0] // 45,
+                    dict_size=max(struct.unpack("<I", props[1:5])[0], 4096))
     elif name == "lzma2" and len(props) == 1:
         spec["dict_size"] = min(lzma2_dict_size(props[0]), 1 << 26)
     elif name == "delta" and props:
         spec["dist"] = props[0] + 1
-    elif name == "ppmd" and len(props) == 5:
-        spec["order"], spec["mem"] = struct.unpack("<BI", props)
+    elif name == "ppmd" and len(props) >= 5:
+        spec["order"], spec["mem"] = struct.unpack("<BI", props[:5])
     elif name == "aes":
         spec["cycles"], spec["salt"], spec["iv"] = parse_aes_props(props)
     return spec
@@ -201,6 +205,54 @@ def spec_from(method: str, props: bytes) -> dict:
 
 def method_bytes(name: str) -> bytes:
     return bytes.fromhex(METHOD[name])
+
+
+# ---------------------------------------------------------------- isolation of fragile C decoders
+def _isolated(fn, timeout: float = 20.0) -> bytes:
+    """Run fn() -> bytes in a forked child.  pyppmd hangs, raises SystemError or segfaults on hostile input."""
+    r, w = os.pipe()
+    pid = os.fork()
+    if pid == 0:
+        try:
+            os.close(r)
+            try:
+                out = b"\0" + fn()
+            except BaseException as e:  # noqa
+                out = b"\1" + ("%s: %s" % (type(e).__name__, e)).encode("utf-8", "replace")
+            with os.fdopen(w, "wb") as f:
+                f.write(out)
+        finally:
+            os._exit(0)
+    os.close(w)
+    chunks, deadline = [], time.monotonic() + timeout
+    try:
+        while True:
+            left = deadline - time.monotonic()
+            if left <= 0 or not select.select([r], [], [], left)[0]:
+                os.kill(pid, 9)
+                raise FormatError("decoder did not finish within %ds (killed)" % timeout)
+            chunk = os.read(r, 1 << 20)
+            if not chunk:
+                break
+            chunks.append(chunk)
+    finally:
+        os.close(r)
+        os.waitpid(pid, 0)
+    buf = b"".join(chunks)
+    if not buf:
+        raise FormatError("decoder process crashed")
+    if buf[0]:
+        raise FormatError("decode failed: " + buf[1:].decode("utf-8", "replace"))
+    return buf[1:]
+
+
+def _ppmd_decode(order, mem, data, outsize):
+    d = _ppmd.Ppmd7Decoder(order, mem)
+    out, tries = (d.decode(data, outsize) if outsize else b""), 0
+    while len(out) < outsize and tries < 8:  # range decoder looks ahead past the end of input
+        out += d.decode(b"\0", outsize - len(out))
+        tries += 1
+    return out
 
 
 # ---------------------------------------------------------------- decode
@@ -230,8 +282,9 @@ def decode(method: str, props, data: bytes, outsize: int, password=None, padded:
             return out[:outsize], len(out) - outsize
         if name in ("lzma", "lzma2"):
             if name == "lzma":
-                if len(props) != 5:
-                    raise FormatError("lzma: properties must be 5 bytes")
+                if len(props) < 5:  # 7-Zip's decoder reads the first 5 bytes and ignores any excess
+                    raise FormatError("lzma: properties shorter than 5 bytes")
+                props = props[:5]
                 if props[0] >= 225:
                     raise FormatError("lzma: bad lc/lp/pb byte")
                 lc, rest = props[0] % 9, props[0] // 9
@@ -278,19 +331,14 @@ def decode(method: str, props, data: bytes, outsize: int, password=None, padded:
             d = _inflate64.Inflater()
             return _exact(d.inflate(bytes(data)), outsize, name), None
         if name == "ppmd":
-            if len(props) != 5:
-                raise FormatError("ppmd: properties must be 5 bytes")
-            order, mem = struct.unpack("<BI", props)
+            if len(props) < 5:  # 7-Zip's decoder reads the first 5 bytes and ignores any excess
+                raise FormatError("ppmd: properties shorter than 5 bytes")
+            order, mem = struct.unpack("<BI", props[:5])
             if outsize > len(data) * 100000 + 65536:
                 raise FormatError("ppmd: declared unpack size %d implausible for %d packed bytes" % (outsize, len(data)))
             if not 2 <= order <= 64 or not (1 << 11) <= mem <= 0xFFFFFFFF - 36:
                 raise FormatError("ppmd: order/memory property out of range")
-            d = _ppmd.Ppmd7Decoder(order, mem)
-            out, tries = (d.decode(bytes(data), outsize) if outsize else b""), 0
-            while len(out) < outsize and tries < 8:  # range decoder look-ahead past end of input
-                out += d.decode(b"\0", outsize - len(out))
-                tries += 1
-            return _exact(out, outsize, name), None
+            return _exact(_isolated(lambda: _ppmd_decode(order, mem, bytes(data), outsize)), outsize, name), None
         if name == "zstd":
             d = _zstd.ZstdDecompressor() if padded else _zstd.EndlessZstdDecompressor()
             out = d.decompress(bytes(data))
